@@ -1,6 +1,7 @@
 import GomlVerif.Lemmas.C03presAnfCases
 import GomlVerif.Lemmas.C03presAnfClosed
 import GomlVerif.Lemmas.C03presAnfScope
+import GomlVerif.Lemmas.C03presAnfSig
 import GomlVerif.Lemmas.C03presMono
 import GomlVerif.Model.C03presSig
 import GomlVerif.Lemmas.C03presMatch
@@ -69,6 +70,25 @@ theorem anf_file_preserves_wt (S : Sig) : ∀ (fns : List Fn) (n : Nat),
     rcases hf' with rfl | hf'
     · exact anf_preserves_wtFn S g n hfl.1 (hw g (by simp))
     · exact anf_file_preserves_wt S rest _ hfl.2 (fun f hf => hw f (by simp [hf])) f' hf'
+
+/-- the signature of the ANF stage (the function table replaced by the output of `anf_file`) judges every
+expression exactly as the signature of the Lift stage does: `Wt.errs` reads the function table only through
+names, generics, parameter lists and result types (`findCallee`, `fnTy`), which `anf_file` keeps -/
+theorem anf_sig_judges_alike (S : Sig) (n : Nat) (Γ : TyEnv) (e : Expr) :
+    errs { S with fns := (anfFns S.fns n).1 } Γ e = errs S Γ e :=
+  errs_hdr S _ (anfFns_hdr S.fns n) e Γ
+
+/-- **the ANF stage output is well-typed**: if the Lift stage is (`wtProg`, every function judged under the
+stage's own signature) and every function is inside the decidable hypothesis, the ANF stage is, under ITS own
+signature -/
+theorem anf_stage_preserves_wtProg (S : Sig) (n : Nat)
+    (hf : (anfFragFlags S.fns n).all (fun b => b) = true) (h : wtProg S = true) :
+    wtProg { S with fns := (anfFns S.fns n).1 } = true := by
+  simp only [wtProg, List.all_eq_true] at h ⊢
+  intro f' hf'
+  have := anf_file_preserves_wt S S.fns n hf h f' hf'
+  simp only [wtFn, fnErrs, anf_sig_judges_alike] at this ⊢
+  exact this
 
 /-- `anf_preserves_closed`: ANF writes no type that was not in the input: every annotation of
 `anf e` satisfies `p` when every annotation of `e` does (`p` = no type parameter / no type
@@ -152,6 +172,8 @@ example : (anfFns sig039.fns 0).2 = 6 := by decide +kernel
 /-- by the theorem … -/
 example : ∀ f' ∈ (anfFns sig039.fns 0).1, wtFn sig039 f' = true :=
   anf_file_preserves_wt sig039 _ 0 (by decide) (by decide +kernel)
+example : wtProg { sig039 with fns := (anfFns sig039.fns 0).1 } = true :=
+  anf_stage_preserves_wtProg sig039 0 (by decide) (by decide +kernel)
 /-- … and by evaluation -/
 example : ((anfFns sig039.fns 0).1.all (wtFn sig039)) = true := by decide +kernel
 example : closedFns (anfFns sig039.fns 0).1 = true :=
